@@ -78,8 +78,9 @@ namespace
                 s.flat(i) = src[i];
             D.add_d("accumulate(src)", flat_vec(graph.accumulate(s)));
         }
-        if (single_final)
-            D.add_s("basins", flat_vec(graph.basins()));
+        // basins() is a deterministic function of the state on every graph (it follows the first receivers)
+        (void) single_final;
+        D.add_s("basins", flat_vec(graph.basins()));
         return D;
     }
 
@@ -337,7 +338,7 @@ namespace
             }
             else
             {
-                if (updates > 0 && single_final)
+                if (updates > 0)
                 {
                     (void) U.graph->basins();
                     trace.push_back("basins");
